@@ -36,6 +36,7 @@
 package main
 
 import (
+	"bytes"
 	"cmp"
 	"embed"
 	"errors"
@@ -327,8 +328,12 @@ func (c *fmtCmd) fmtTxtarFile(filename string) error {
 		}
 		archive.Files[i].Data = []byte(out)
 	}
+	formatted := txtar.Format(archive)
+	if c.Check && !bytes.Equal(formatted, b) {
+		return errNotFormatted // e.g. a last member without the final newline that -w would add
+	}
 	if c.Write {
-		return writeAtomically(txtar.Format(archive), filename)
+		return writeAtomically(formatted, filename)
 	}
 	return nil
 }
